@@ -139,38 +139,48 @@ def solve_one(job):
         # sat: reachable; unsat: VACUOUS (contradictory assumptions); unknown: not shown contradictory within budget
         res["verdict"] = {"sat": "proved", "unsat": "refuted", "unknown": "cover-unknown"}[r]
         return res
-    r, dt, model, reason = _check_z3(smt2, Z3_TIMEOUT_MS, seed)
-    res["backends"]["z3-5.1"] = dict(result=r, seconds=round(dt, 3), reason=reason)
+    # portfolio, cheapest first; every back end sees the same SMT-LIB text
+    def note(name, r, dt, **kw):
+        res["backends"][name] = dict(result=r, seconds=round(dt, 3), **kw)
+
+    r, dt, model, reason = _check_z3(smt2, 3000, seed)
+    note("z3-5.1", r, dt, reason=reason)
     final = r
     if r == "sat":
         res["model"] = model
-    if final == "unknown":
-        # pure MBQI (e-matching off) decides many set/relation queries the default configuration loops on
-        r5, dt5 = _check_z3_cli_model(smt2, 15)
-        res["backends"]["z3-5.1-cli-noematch"] = dict(result=r5, seconds=round(dt5, 3))
-        final = r5
-    if final == "unknown":
-        # counter-model search in finite scopes first (fast): the scope axioms only ADD constraints, so sat here is sat there
-        for n, sm in scoped:
-            r4, dt4 = _check_cvc5(sm, 10, fmf=True)
-            res["backends"][f"cvc5-fmf-scope{n}"] = dict(result=r4, seconds=round(dt4, 3))
-            if r4 != "sat":
-                r4, dt4 = _check_z3_cli_model(sm, 10)
-                res["backends"][f"z3-cli-noematch-scope{n}"] = dict(result=r4, seconds=round(dt4, 3))
-            if r4 == "sat":
-                final = "sat"
-                res["scope"] = n
-                break
-    if final == "unknown" or thorough:
-        r2, dt2 = _check_cvc5(smt2, CVC5_TIMEOUT_S)
-        res["backends"]["cvc5-1.0.3"] = dict(result=r2, seconds=round(dt2, 3))
+    if final == "unknown" or (thorough and final == "unsat"):
+        r2, dt2 = _check_cvc5(smt2, 10 if not thorough else CVC5_TIMEOUT_S)
+        note("cvc5-1.0.3", r2, dt2)
         if final == "unknown":
             final = r2
         elif r2 != "unknown" and r2 != final:
             final = "conflict"
     if final == "unknown":
-        r3, dt3 = _check_z3_old(smt2, CVC5_TIMEOUT_S)
-        res["backends"]["z3-4.8.12"] = dict(result=r3, seconds=round(dt3, 3))
+        # pure MBQI (e-matching off) decides many set/relation queries the default configuration loops on
+        r5, dt5 = _check_z3_cli_model(smt2, 10)
+        note("z3-5.1-cli-noematch", r5, dt5)
+        final = r5
+    if final == "unknown":
+        r6, dt6, model, reason = _check_z3(smt2, Z3_TIMEOUT_MS * (3 if thorough else 2), seed + 1)
+        note("z3-5.1-long", r6, dt6, reason=reason)
+        final = r6
+        if r6 == "sat":
+            res["model"] = model
+    if final == "unknown":
+        # counter-model search in finite scopes: the scope axioms only ADD constraints, so sat here is sat there
+        for n, sm in scoped:
+            r4, dt4 = _check_cvc5(sm, 10, fmf=True)
+            note(f"cvc5-fmf-scope{n}", r4, dt4)
+            if r4 != "sat":
+                r4, dt4 = _check_z3_cli_model(sm, 10)
+                note(f"z3-cli-noematch-scope{n}", r4, dt4)
+            if r4 == "sat":
+                final = "sat"
+                res["scope"] = n
+                break
+    if final == "unknown":
+        r3, dt3 = _check_z3_old(smt2, 20)
+        note("z3-4.8.12", r3, dt3)
         final = r3
     if cover:
         res["verdict"] = {"sat": "proved", "unsat": "refuted", "unknown": "unknown", "conflict": "unknown"}[final]
